@@ -422,10 +422,12 @@ static void run_gr(Out& out, const std::string& payload, const char* existing_fi
         if (fail.empty() && g2.npath == 1) {
             compare(k2, shape3, g3, k3, "third");
             // the library of the second load is the library of the first load: unit, precision, UNITS record
-            if (fail.empty() && (dbl_bits(unit3) != dbl_bits(lunit) || dbl_bits(prec3) != dbl_bits(lprec)))
+            // (outside 16^-65 .. 16^63 the exponent byte of gdsii_real_from_double(precision / unit) is undefined: not judged)
+            bool ratio_ok = lprec / lunit > 1e-70 && lprec / lunit < 1e70 && lprec > 1e-70 && lprec < 1e70;
+            if (fail.empty() && ratio_ok && (dbl_bits(unit3) != dbl_bits(lunit) || dbl_bits(prec3) != dbl_bits(lprec)))
                 fail = "write_gds:second-cycle-unit unit / precision " + hex_dbl(lunit) + " / " + hex_dbl(lprec) + " became " + hex_dbl(unit3) + " / " + hex_dbl(prec3);
-            if (fail.empty() && (g3.r0 != g2.r0 || g3.r1 != g2.r1)) fail = "write_gds:third-cycle-units the UNITS record changed between the second and the third file";
-            if (fail.empty() && g3.npath == 1 && read_file(f2) != read_file(f3)) fail = "write_gds:third-cycle the third file differs from the second";
+            if (fail.empty() && ratio_ok && (g3.r0 != g2.r0 || g3.r1 != g2.r1)) fail = "write_gds:third-cycle-units the UNITS record changed between the second and the third file";
+            if (fail.empty() && ratio_ok && g3.npath == 1 && read_file(f2) != read_file(f3)) fail = "write_gds:third-cycle the third file differs from the second";
         }
         // strictly monotone load
         for (int a = 0; a < NV && fail.empty(); a++)
@@ -560,7 +562,7 @@ static std::string plist_text(const int64_t* k0, const OList& l) {
     for (int64_t d : l.d) s += " " + hex_i64(d);
     return s;
 }
-static std::string ext_text(char sch, int64_t e) { return sch == 'x' ? hex_i64(e) : std::string(1, sch); }
+static std::string ext_text(char sch, int64_t e) { return sch == 'x' ? hex_i64(e) : sch == 'f' ? std::string("fl") : std::string("hw"); }
 static int64_t ext_resolved(char sch, int64_t e, uint64_t hw) { return sch == 'f' ? 0 : sch == 'h' ? (int64_t)hw : e; }
 
 static std::string ofile_fields(const OFile& o) {
